@@ -155,6 +155,17 @@ type caseDesc struct {
 	Gen    string `json:"gen,omitempty"` // payload generator
 	Len    int    `json:"len,omitempty"`
 	Key    uint64 `json:"key,omitempty"`
+	// the query the response answers: "" = a question made by hand, without an OPT record;
+	// "client" = formed by the client's own Serializer.EncodeDnsRequestWithParams (a data packet of UpLen
+	// bytes going upstream; with an OPT record when Edns0 is set, as after a successful EDNS0 negotiation),
+	// packed, and unpacked again on the server's side
+	Query string `json:"query,omitempty"`
+	Edns0 bool   `json:"edns0,omitempty"`
+	UpLen int    `json:"up_len,omitempty"`
+	// history: answers the same client decoded after this one, before it looked at this one again
+	Then []caseDesc `json:"then,omitempty"`
+	// several clients of one process at the same time (see c10_group_test.go)
+	Group *groupDesc `json:"group,omitempty"`
 	// informational only (not used by replay)
 	CodecName  string `json:"codec_name,omitempty"`
 	PayloadHex string `json:"payload_hex_head,omitempty"`
@@ -411,19 +422,120 @@ func describe(r commands.Response) string {
 
 // ---- one case --------------------------------------------------------------------------------
 
+func caseKey(d caseDesc) string {
+	key := fmt.Sprintf("%s|%s|%s|%s|%s|%s|%d|%d|%d|%d|%s|%d|%d", d.Resp, d.Err, d.Qtype, d.Codec, d.Domain, d.QStyle, d.Ver, d.User, d.Ack, d.Seq, d.Gen, d.Len, d.Key)
+	if d.Query != "" {
+		key += fmt.Sprintf("|q=%s|edns0=%v|up=%d", d.Query, d.Edns0, d.UpLen)
+	}
+	return key
+}
+
+func findQtype(name string) *qtype {
+	for i := range qtypes {
+		if qtypes[i].name == name {
+			return &qtypes[i]
+		}
+	}
+	return nil
+}
+
+// formQuery makes the query a response answers. It is the harness's own precondition: an error here
+// says nothing about the property.
+func formQuery(d caseDesc, q *qtype) (*dns.Msg, error) {
+	if d.Query == "" {
+		req := new(dns.Msg)
+		req.SetQuestion(questionName(d.QStyle, d.Domain), uint16(q.t))
+		req.Id = uint16(7727 + d.Len)
+		return req, nil
+	}
+	if d.Query != "client" {
+		return nil, fmt.Errorf("unknown query style %q", d.Query)
+	}
+	// what the client does: Serializer.EncodeDnsRequestWithParams (UseEdns0 adds the OPT record), Pack; and what
+	// the server is handed by its DNS library: the unpacked message
+	cli := commands.Serializer{Domain: d.Domain, UseEdns0: d.Edns0, Upstream: util.UpstreamConfig{Encoder: enc.Base32Encoding}}
+	var lastErr error
+	for n := d.UpLen; ; n /= 2 { // a long tunnel domain leaves room for a few bytes only: shrink until the name fits
+		up := make([]byte, n)
+		vcommon.FillKeyed(d.Key^0x5151, 0, up)
+		r := &commands.PacketRequest{UserId: d.User % 1296, LastAckedSeqNo: d.Seq, Packet: &util.Packet{SeqNo: d.Ack, Data: up}}
+		m, err := cli.EncodeDnsRequestWithParams(r, q.t, enc.Base32Encoding)
+		if err == nil {
+			m.Id = uint16(7727 + d.Len)
+			var qb []byte
+			if qb, err = m.Pack(); err == nil {
+				recv := new(dns.Msg)
+				if err = recv.Unpack(qb); err == nil {
+					return recv, nil
+				}
+			}
+		}
+		lastErr = err
+		if n == 0 {
+			return nil, lastErr
+		}
+	}
+}
+
 type harness struct {
 	rec    *vcommon.Rec
 	codecs map[byte]enc.Encoder
+	keep   retainer
+}
+
+// retainer: what a client received stays what it received. A response that was decoded and found identical is
+// kept for the next keepFor answers the same client decodes and compared again after each of them: the
+// application reads a payload after the tunnel has gone on to the next answer (the oracle is the same comparison
+// as before, made at a later moment).
+const keepFor = 3
+
+type kept struct {
+	d         caseDesc
+	want, got commands.Response
+	cell      string
+	then      []caseDesc
+}
+
+type retainer struct {
+	held []kept
+}
+
+// later is called after every answer a client has put through the decoder (whatever the outcome was);
+// group is set when the client is one of several running at the same time.
+func (r *retainer) later(rec *vcommon.Rec, d caseDesc, group *groupDesc) {
+	d.Then, d.Group, d.PayloadHex = nil, nil, ""
+	out := r.held[:0]
+	for _, k := range r.held {
+		k.then = append(k.then, d)
+		rec.Stat("kept_responses_compared_again", 1)
+		if diff, _ := same(k.want, k.got); diff != "" {
+			sig := k.cell + ":silent-diff:changed-after-later-decode"
+			desc := k.d
+			desc.Then = k.then
+			if group != nil {
+				desc.Group = group
+			}
+			rec.Violation(sig, desc, map[string]interface{}{
+				"sent": describe(k.want), "differs_in": diff, "client_holds_now": describe(k.got),
+				"answers_decoded_since": len(k.then),
+			})
+			continue
+		}
+		if len(k.then) < keepFor {
+			out = append(out, k)
+		}
+	}
+	r.held = out
+}
+
+func (r *retainer) hold(d caseDesc, want, got commands.Response, cell string) {
+	d.Then, d.Group = nil, nil
+	r.held = append(r.held, kept{d: d, want: want, got: got, cell: cell})
 }
 
 func (h *harness) run(d caseDesc) (outcome string) {
 	rec := h.rec
-	var q *qtype
-	for i := range qtypes {
-		if qtypes[i].name == d.Qtype {
-			q = &qtypes[i]
-		}
-	}
+	q := findQtype(d.Qtype)
 	k := kindByName(d.Resp)
 	codec := h.codecs[d.Codec[0]]
 	if q == nil || k == nil || codec == nil {
@@ -431,15 +543,20 @@ func (h *harness) run(d caseDesc) (outcome string) {
 	}
 	d.CodecName = codec.Name()
 	want := build(d)
-	key := fmt.Sprintf("%s|%s|%s|%s|%s|%s|%d|%d|%d|%d|%s|%d|%d", d.Resp, d.Err, d.Qtype, d.Codec, d.Domain, d.QStyle, d.Ver, d.User, d.Ack, d.Seq, d.Gen, d.Len, d.Key)
+	key := caseKey(d)
 
 	// server and client each have their own serializer, as in the real system
 	srv := commands.Serializer{Domain: d.Domain, Downstream: util.DownstreamConfig{Encoder: codec, FragmentSize: 1534}}
 	cli := commands.Serializer{Domain: d.Domain, Downstream: util.DownstreamConfig{Encoder: codec, FragmentSize: 1534}}
 
-	req := new(dns.Msg)
-	req.SetQuestion(questionName(d.QStyle, d.Domain), uint16(q.t))
-	req.Id = uint16(7727 + d.Len)
+	req, qerr := formQuery(d, q)
+	if qerr != nil {
+		rec.Inconclusive("the harness could not form the query: "+qerr.Error(), d)
+		return "no query: " + qerr.Error()
+	}
+	if req.IsEdns0() != nil {
+		rec.Stat("queries_with_opt_record", 1)
+	}
 
 	stage := "encode"
 	var msg, m2 *dns.Msg
@@ -506,6 +623,13 @@ func (h *harness) run(d caseDesc) (outcome string) {
 	}
 
 	rec.Seen("qtype x codec x response", d.Qtype+"/"+codec.Name()+"/"+d.Resp)
+	if d.Query != "" {
+		rec.Seen("client-formed query: qtype x edns0 x outcome stage", fmt.Sprintf("%s/%v/%s", d.Qtype, d.Edns0, stage))
+	}
+	if stage == "decode" || stage == "compare" {
+		// the client has decoded another answer: what it received before must still be what it received
+		h.keep.later(rec, d, nil)
+	}
 
 	if panicked {
 		rec.Case(key, true)
@@ -534,6 +658,11 @@ func (h *harness) run(d caseDesc) (outcome string) {
 		rec.Stat("payload_bytes_compared_equal", int64(n))
 		rec.StatMax("identical_payload_len:"+d.Qtype, int64(d.Len))
 		rec.Seen("ok_identical_cells", cell)
+		if d.Query != "" {
+			rec.Stat(fmt.Sprintf("ok_identical:client-query:edns0=%v", d.Edns0), 1)
+			rec.StatMax(fmt.Sprintf("identical_wire_bytes:client-query:edns0=%v:%s", d.Edns0, d.Qtype), int64(len(wire)))
+		}
+		h.keep.hold(d, want, got, cell)
 		if len(msg.Answer) > 1 {
 			rec.Stat("ok_identical_multi_record", 1)
 			rec.StatMax("answer_records_ok:"+d.Qtype, int64(len(msg.Answer)))
@@ -611,9 +740,13 @@ func (h *harness) run(d caseDesc) (outcome string) {
 			}
 		}
 	}
+	if m2 != nil && m2.Truncated {
+		// diagnosis only: the reply that reached the client says (TC bit) that the server cut it short
+		cause += ":reply-marked-truncated"
+	}
 	sig := fmt.Sprintf("%s:silent-diff:layer=%s%s", cell, layer, cause)
 	rec.Violation(sig, mkdesc(), observed(map[string]interface{}{
-		"differs_in": diff, "decoded": describe(got),
+		"differs_in": diff, "decoded": describe(got), "tc_bit": m2 != nil && m2.Truncated, "records_received": nAnswers(m2),
 		"record_layer_in": clip(sentBytes), "record_layer_out": clip(backBytes),
 	}))
 	return "VIOLATION " + sig + ": differs in " + diff
@@ -645,6 +778,29 @@ func lengths(rec *vcommon.Rec, big bool) []int {
 	return ls
 }
 
+// sweepLengths: every length up to 64, one seeded length in every block of the given size up to 8192, the
+// lengths next to 8192 (and next to the 65530-byte record limit for NULL/PRIVATE).
+func sweepLengths(rng *rand.Rand, block int, big bool) []int {
+	var ls []int
+	for l := 0; l <= 64; l++ {
+		ls = append(ls, l)
+	}
+	for b := 65; b < 8180; b += block {
+		n := block
+		if b+n > 8180 {
+			n = 8180 - b
+		}
+		ls = append(ls, b+rng.Intn(n))
+	}
+	for l := 8180; l <= 8192; l++ {
+		ls = append(ls, l)
+	}
+	if big {
+		ls = append(ls, 65500, 65529, 65530, 65531)
+	}
+	return ls
+}
+
 var contentGens = []string{"zero", "ff", "dot", "bslash", "quote", "space", "ctl", "special", "counter", "digits"}
 
 var seqVals = []uint16{0, 1, 255, 256, 32767, 65535}
@@ -670,7 +826,20 @@ func TestVerifC10(t *testing.T) {
 			t.Fatal(err)
 		}
 		d.PayloadHex = ""
-		out := h.run(d)
+		var out string
+		if d.Group != nil {
+			// the whole group the case was seen in (an interleaving: several runs may be needed)
+			out = h.runGroup(*d.Group)
+		} else {
+			out = h.run(d)
+			for _, later := range d.Then {
+				// the answers the client decoded before it looked at the first one again
+				out += " | then: " + h.run(later)
+			}
+			if n := rec.ViolationCount(); n > 0 {
+				out += fmt.Sprintf(" | %d violation(s) recorded", n)
+			}
+		}
 		rec.Note("replay outcome", out)
 		t.Logf("replay outcome: %s", out)
 		return
@@ -696,10 +865,28 @@ func TestVerifC10(t *testing.T) {
 			}
 		}
 	}
+	// added after the items above so that those keep their index (shard, random stream, rotation):
+	// responses to queries the client formed itself (with and without the OPT record), and groups of clients
+	for _, q := range qtypes {
+		for _, c := range codecCodes {
+			items = append(items, item{q, c, "cliq"})
+		}
+	}
+	firstGroup := len(items)
+	for g := 0; g < rec.Pick(8, 16); g++ {
+		items = append(items, item{qtypes[0], codecCodes[0], "group"})
+	}
 	thorough := rec.Thorough()
 	sampled := false
 	for idx, it := range items {
 		if !rec.Mine(idx) {
+			continue
+		}
+		if it.fam == "group" {
+			g := groupDesc{Seed: rec.Seed(), Index: idx - firstGroup, Lanes: 16, PerLane: rec.Pick(80, 200), Passes: rec.Pick(2, 4), Procs: 4}
+			rec.Mark(map[string]interface{}{"family": "group", "group": g})
+			h.runGroup(g)
+			rec.Seen("work_items", fmt.Sprintf("group/%d", g.Index))
 			continue
 		}
 		cname := h.codecs[it.c].Name()
@@ -851,6 +1038,55 @@ func TestVerifC10(t *testing.T) {
 					d.Resp, d.Gen, d.Len = "FragSize", "frag107", l
 					d.Domain, d.QStyle = next()
 					h.run(d)
+				}
+			}
+		case "cliq":
+			// --- answers to queries the client formed itself (Serializer.EncodeDnsRequestWithParams, over the wire),
+			// with the OPT record of a negotiated EDNS0 and without it: lengths over the whole range 0..8192 (every
+			// 32-byte block), so that answers of every size class (one record .. hundreds of records, a few bytes ..
+			// tens of kilobytes on the wire) are formed for both kinds of query and every tunnel domain
+			for li, l := range sweepLengths(rng, rec.Pick(64, 32), it.q.big) {
+				dom := domains[(idx+li)%len(domains)]
+				up, user := rng.Intn(150), uint16(rng.Intn(1296))
+				a, sq, key := randSeq(), randSeq(), rng.Uint64()
+				for _, ed := range []bool{true, false} {
+					d := base
+					d.Query, d.Edns0, d.UpLen, d.User = "client", ed, up, user
+					d.Domain, d.Len = dom, l
+					switch li % 6 {
+					case 0:
+						d.Resp, d.Gen = "FragSize", "frag107"
+					case 1:
+						d.Resp, d.Gen, d.Key = "Packet/data", contentGens[(li/6)%len(contentGens)], uint64(li)
+					default:
+						d.Resp, d.Gen, d.Key = "Packet/data", "random", key
+					}
+					if d.Resp == "Packet/data" {
+						d.Ack, d.Seq = a, sq
+					}
+					h.run(d)
+				}
+			}
+			// responses without a payload, and the codec probe
+			for i, kn := range []string{"Version", "SetOptions", "Packet/none", "DownEnc", "Error", "Packet+err", "UpEnc"} {
+				for _, dom := range domains {
+					for _, ed := range []bool{true, false} {
+						d := base
+						d.Query, d.Edns0, d.UpLen, d.Domain, d.Resp = "client", ed, (i*37+len(dom))%150, dom, kn
+						switch kn {
+						case "Version":
+							d.Ver, d.User = rng.Uint32(), uint16(rng.Intn(1296))
+						case "Packet/none":
+							d.Ack = randSeq()
+						case "DownEnc":
+							d.Gen, d.Len = "codeccheck", len(util.DownloadCodecCheck)
+						case "UpEnc":
+							d.Gen, d.Len, d.Key = "random", 1+rng.Intn(200), rng.Uint64()
+						case "Error", "Packet+err":
+							d.Err = errTexts[rng.Intn(len(errTexts))]
+						}
+						h.run(d)
+					}
 				}
 			}
 		case "upenc":
